@@ -54,9 +54,11 @@ LINKED = {
 # the same program names written twice: the second time an imported module has another interface (and its importers follow)
 LINKED_TWICE = {
     "chain-2-leaf-gets-a-parameter": ("chain-2", {"leaf": "function lf(int a, int b) -> int { return a + b; }\nfunction other(int a) -> int { return a; }\n",
-                                                  "mid": 'import "leaf";\nfunction md(int a) -> int { return lf(a, 1) * 2 + other(a); }\n'}),
+                                                  "mid": 'import "leaf";\nfunction md(int a, int b) -> int { return lf(a, b) * 2 + other(a); }\n',
+                                                  "app": 'import "mid";\nexport function f(int a) -> int { return md(a, 2) + 1; }\n'}),
     "diamond-leaf-renamed": ("diamond", {"leaf": "function lg(float x) -> float { return x * 0.5; }\nfunction lg(int a) -> int { return a + 1; }\n",
-                                         "ma": 'import "leaf";\nfunction fa(int a) -> int { return lg(a); }\n', "mb": 'import "leaf";\nfunction fb(float x) -> float { return lg(x); }\n'}),
+                                         "ma": 'import "leaf";\nfunction fa2(int a, int b) -> int { return lg(a) + b; }\n', "mb": 'import "leaf";\nfunction fb(float x) -> float { return lg(x); }\n',
+                                         "app": 'import "ma";\nimport "mb";\nexport function f(int a) -> float { return fa2(a, 1) + fb(a); }\n'}),
 }
 
 
